@@ -705,6 +705,16 @@ Redir:
 }
 
 func (l *lexer) lexHeredoc() action {
+	if !l.readHeredocs() {
+		return nil
+	}
+	return l.lexToken('\n')
+}
+
+// readHeredocs reads the bodies of the pending here-documents; the scanner is
+// positioned after the <newline> that ends the line of their operators. It
+// reports whether lexing goes on.
+func (l *lexer) readHeredocs() bool {
 	find := func(r *ast.Redir, delim string) bool {
 		for i := len(l.word) - 1; i >= 0; i-- {
 			if l.word[i].Pos().Col() == 1 {
@@ -746,7 +756,7 @@ func (l *lexer) lexHeredoc() action {
 			if err != nil {
 				if !l.heredoc.exists() {
 					if l.lit(); find(h, delim) {
-						return nil
+						return false
 					}
 				}
 				goto Error
@@ -790,14 +800,14 @@ func (l *lexer) lexHeredoc() action {
 					l.lit()
 					l.mark(-1)
 					if !l.scanParamExp() {
-						return nil
+						return false
 					}
 				case '`':
 					// command substitution
 					l.lit()
 					l.mark(-1)
 					if !l.scanCmdSubst('`') {
-						return nil
+						return false
 					}
 				default:
 					l.b.WriteRune(r)
@@ -811,10 +821,10 @@ func (l *lexer) lexHeredoc() action {
 			if err == io.EOF {
 				l.error(h.OpPos, "syntax error: here-document delimited by EOF")
 			}
-			return nil
+			return false
 		}
 	}
-	return l.lexToken('\n')
+	return true
 }
 
 func (l *lexer) scanArithExpr(pos ast.Pos) int {
@@ -1613,6 +1623,14 @@ func (l *lexer) linebreak() bool {
 			hash = false
 			l.comment()
 			l.mark(0)
+			if l.heredoc.exists() {
+				// the here-documents of the line that ends here
+				// ("a <<E &&", "a <<E |", "a) b <<E ;;")
+				if !l.readHeredocs() {
+					return false
+				}
+				l.mark(0)
+			}
 		case '#':
 			// comment
 			if hash {
